@@ -786,6 +786,38 @@ func checkYAMLMeta(c *vk.C, gc *genCase, cnt counts) {
 	cnt["roundtrips_yaml"]++
 }
 
+// SigSpecYAMLLibrary is the signature of the recorded finding "the YAML library does not round-trip some spec strings": the spec of a
+// resource is written and read by the YAML library's own struct encoder / decoder (cosi code only passes the spec value through), and
+// the library mis-handles several string classes (multi-line strings starting with a tab or - inside sequences - with a space, strings
+// around U+2028/U+2029 or carriage returns in block scalars, strings that are not valid UTF-8 ...).
+const SigSpecYAMLLibrary = "yaml-spec-not-roundtripped-by-yaml-library"
+
+// specAloneFailsThroughLibrary reports whether the spec of r, sent through the YAML library alone (yaml.Marshal of the spec value,
+// yaml.Unmarshal into a fresh spec of the same resource type - no metadata, no cosi resource wrapper), already fails to come back equal.
+func specAloneFailsThroughLibrary(r resource.Resource) (fails bool) {
+	defer func() {
+		if recover() != nil {
+			fails = true
+		}
+	}()
+
+	b, err := yaml.Marshal(r.Spec())
+	if err != nil {
+		return true
+	}
+
+	fresh, err := protobuf.CreateResource(r.Metadata().Type())
+	if err != nil {
+		return false // (not a registered type: cannot be isolated, so nothing is attributed to the library)
+	}
+
+	if err := yaml.Unmarshal(b, fresh.Spec()); err != nil {
+		return true
+	}
+
+	return !specEqual(r, fresh)
+}
+
 // yamlCauseSig refines the signature of a YAML failure when the case shows one of two causes which were traced to the YAML library
 // (go.yaml.in/yaml/v4) and are reported as findings of their own:
 //   - a multi-line string whose first line starts with a tab is written as a block scalar without indentation indicator, which the
@@ -824,7 +856,7 @@ func yamlCauseSig(def string, err error, differs string, r resource.Resource) st
 		case firstLineStarts(mdStrings(r.Metadata()), "\t") && mdAloneFails():
 			return "yaml-tab-led-multiline-string-unreadable"
 		case firstLineStarts(specStrings(r), "\t"):
-			return "yaml-spec-tab-led-multiline-string-unreadable"
+			return SigSpecYAMLLibrary
 		}
 	}
 
@@ -833,7 +865,13 @@ func yamlCauseSig(def string, err error, differs string, r resource.Resource) st
 	}
 
 	if (err != nil || strings.Contains(differs, "spec")) && firstLineStarts(specLists(r), " ") {
-		return "yaml-spec-space-led-multiline-list-item-corrupted"
+		return SigSpecYAMLLibrary
+	}
+
+	// anything else about the spec: blamed on the library only if the metadata is fine on its own and the library alone, fed the bare
+	// spec, reproduces a failure
+	if (err != nil || strings.Contains(differs, "spec")) && !mdAloneFails() && specAloneFailsThroughLibrary(r) {
+		return SigSpecYAMLLibrary
 	}
 
 	return def
@@ -938,7 +976,7 @@ func checkYAMLResource(c *vk.C, gc *genCase, cnt counts) {
 	case mdD != "":
 		c.Violation(yamlCauseSig("yaml-roundtrip-differs", nil, mdD, gc.r), detail(map[string]any{"differs": "metadata." + mdD, "got": describeRes(got)}))
 	case !specOK && !allValid(specStrings(gc.r)):
-		c.Violation("yaml-spec-invalid-utf8-silently-changed", detail(map[string]any{"differs": "spec", "got_spec": fmt.Sprintf("%+v", got.Spec())}))
+		c.Violation(yamlCauseSig("yaml-spec-invalid-utf8-silently-changed", nil, "spec", gc.r), detail(map[string]any{"differs": "spec", "got_spec": fmt.Sprintf("%+v", got.Spec())}))
 	case !specOK:
 		c.Violation(yamlCauseSig("yaml-resource-spec-roundtrip-differs", nil, "spec", gc.r), detail(map[string]any{"differs": "spec", "got_spec": clipText(fmt.Sprintf("%+v", got.Spec()))}))
 	default:
